@@ -21,7 +21,7 @@ func init() {
 			"R3 one image: the SHA-384 operand and the image argument of every technology measurement have the same access path (Context.Image), which is never stored to in S. " +
 			"R4 every exported field of the signed messages (VMGoldenMeasurement, VMSevSnp, VMTdx, VMTdx_Measurement) has a writer in S whose value derives from the request/context source listed in the rule's table (fields outside the table must at least have a writer); exempt: VMSevSnp.CaBundle (never populated by design). " +
 			"R5 per-count loop: the key of each stored SNP measurement is the loop variable over the requested counts and the value is LaunchDigest called with Vcpus assigned from that variable in the same iteration. " +
-			"R6 SignDoc: Cert, CaBundle and Timestamp are stored before the single proto.Marshal of the document and nothing is stored afterwards. " +
+			"R7 every sev.LaunchOptions object built in a function that receives the request gets Product from the request before it is used. R8 an options object created outside a loop has every field that the loop changes re-assigned before each measurement in the loop (no setting leaks from one entry to the next). R6 SignDoc: Cert, CaBundle and Timestamp are stored before the single proto.Marshal of the document and nothing is stored afterwards. " +
 			"Not covered: that each digest equals the launch measurement (C04/C05).",
 		Assumptions: []string{"go/types, go/ssa, VTA call graph", "bytes.Buffer writes do not fail", "generated protobuf struct fields are the message contents"},
 		Run:         runC06,
@@ -30,7 +30,7 @@ func init() {
 
 // c06Suppress: one named symbol with a reason each.
 var c06Suppress = map[string]string{
-	"tdx.generateAllPossibleMRTDs→tdx.MRTD": "the early-accept measurement repeats, on the same image and banks, the parse that succeeded two statements earlier and differs only in a resource-attribute bit of the hand-off block; it cannot fail when the first call succeeded (confirmed by reading ovmf.parse and by a failed attempt to construct a failing input)",
+	"tdx.generateAllPossibleMRTDs→tdx.MRTD":                                             "the early-accept measurement repeats, on the same image and banks, the parse that succeeded two statements earlier and differs only in a resource-attribute bit of the hand-off block; it cannot fail when the first call succeeded (confirmed by reading ovmf.parse and by a failed attempt to construct a failing input)",
 	"(*sev.SnpMeasurement).ZeroContentUpdate→(*sev.SnpMeasurement).ZeroContentUpdate4K": "infallible: PageInfo.Put on an exactly sized local buffer; the page type was validated by the switch above",
 }
 
@@ -253,12 +253,14 @@ func runC06(c *Ctx) {
 		"VMSevSnp.Svn":                  reqField("sev", "SnpEndorsementRequest", "Svn"),
 		"VMSevSnp.FamilyId":             reqField("sev", "SnpEndorsementRequest", "FamilyID"),
 		"VMSevSnp.ImageId":              reqField("sev", "SnpEndorsementRequest", "ImageID"),
-		"VMSevSnp.Measurements":         callTo("sev.LaunchDigest"),
-		"VMSevSnp.SvsmMeasurement":      ctxField("SvsmSnpMeasurement"),
-		"VMSevSnp.Policy":               func(v ssa.Value) bool { _, ok := v.(*ssa.Global); return ok },
-		"VMTdx.Svn":                     reqField("tdx", "EndorsementRequest", "Svn"),
-		"VMTdx.Measurements":            callTo("tdx.MRTD"),
-		"VMTdx_Measurement.Mrtd":        callTo("tdx.MRTD"),
+		"VMSevSnp.Measurements": func(v ssa.Value) bool {
+			return callTo("sev.LaunchDigest")(v) || flow.IsFieldLoad(v, repoPath("sev"), "SnpMeasurement", "Digest")
+		},
+		"VMSevSnp.SvsmMeasurement": ctxField("SvsmSnpMeasurement"),
+		"VMSevSnp.Policy":          func(v ssa.Value) bool { _, ok := v.(*ssa.Global); return ok },
+		"VMTdx.Svn":                reqField("tdx", "EndorsementRequest", "Svn"),
+		"VMTdx.Measurements":       callTo("tdx.MRTD"),
+		"VMTdx_Measurement.Mrtd":   callTo("tdx.MRTD"),
 	}
 	exempt := map[string]string{"VMSevSnp.CaBundle": "never populated by design; the bundle is at document level"}
 	fieldStores := map[string][]*ssa.Store{}
@@ -328,7 +330,8 @@ func runC06(c *Ctx) {
 	c.S.Floor("R4", "exported fields of the signed messages", 18, nFields)
 
 	// ---- R5 ----
-	ld := c.P.Func("sev", "LaunchDigest")
+	sl5 := flow.NewSlicer(c.P)
+	sl5.ThroughOutParams = true
 	nMap := 0
 	for _, f := range fns {
 		if load.RelPkg(f) != "sev" {
@@ -344,17 +347,11 @@ func runC06(c *Ctx) {
 				nMap++
 				name := load.FuncName(f) + ":measurement map"
 				L := innermostLoopOf(loops, b)
-				var ldCall *ssa.Call
-				if ex, ok := mu.Value.(*ssa.Extract); ok {
-					if cc, ok := ex.Tuple.(*ssa.Call); ok && ld != nil && cc.Call.StaticCallee() == ld {
-						ldCall = cc
-					}
-				}
-				if ldCall == nil || L == nil || !L.Body[ldCall.Block()] {
-					c.S.Bad("R5", name, c.pos(mu.Pos()), "stored measurement is not the result of LaunchDigest computed in the same loop iteration")
+				if L == nil {
+					c.S.Bad("R5", name, c.pos(mu.Pos()), "per-count measurements are not produced in a loop over the requested counts")
 					continue
 				}
-				// Vcpus store from the key, dominating the call, inside the loop
+				// options objects whose Vcpus is set from the key inside this iteration, before the store
 				okV := false
 				for lb := range L.Body {
 					for _, li := range lb.Instrs {
@@ -363,16 +360,19 @@ func runC06(c *Ctx) {
 							continue
 						}
 						fa, ok := st.Addr.(*ssa.FieldAddr)
-						if !ok || flow.FieldName(fa) != "Vcpus" || fa.X != ldCall.Call.Args[0] {
+						if !ok || flow.FieldName(fa) != "Vcpus" || !namedIs(fa.X.Type(), repoPath("sev"), "LaunchOptions") {
 							continue
 						}
-						if sl.Derives(st.Val, func(v ssa.Value) bool { return v == mu.Key }) && (lb.Dominates(ldCall.Block())) {
+						if !sl.Derives(st.Val, func(v ssa.Value) bool { return v == mu.Key }) || !lb.Dominates(b) {
+							continue
+						}
+						opts := fa.X
+						if sl5.Derives(mu.Value, func(v ssa.Value) bool { return v == opts }) {
 							okV = true
 						}
 					}
 				}
-				c.S.Check(okV, "R5", name, c.pos(mu.Pos()), "key is the loop's count; Vcpus set from it before LaunchDigest in the same iteration", "the measurement stored under a VMSA count is not computed with Vcpus set from that count in the same iteration")
-				// key ranges over the requested counts
+				c.S.Check(okV, "R5", name, c.pos(mu.Pos()), "the value stored under a count derives from a measurement taken with Vcpus set from that count earlier in the same iteration", "the measurement stored under a VMSA count is not computed with Vcpus set from that count in the same iteration")
 				okK := sl.Derives(mu.Key, func(v ssa.Value) bool {
 					return flow.IsFieldLoad(v, repoPath("sev"), "SnpEndorsementRequest", "LaunchVmsas") || isGlobalNamed(v, repoPath("sev"), "AllSupportedVmsaCounts")
 				})
@@ -381,6 +381,168 @@ func runC06(c *Ctx) {
 		}
 	}
 	c.S.Floor("R5", "measurement map fills in package sev", 1, nMap)
+
+	// ---- R7: request parameters reach every options object used for measuring ----
+	type optRow struct{ rel, optType, field, reqType, reqField string }
+	nOpts := 0
+	for _, row := range []optRow{{"sev", "LaunchOptions", "Product", "SnpEndorsementRequest", "Product"}} {
+		for _, f := range fns {
+			if load.RelPkg(f) != row.rel {
+				continue
+			}
+			takesReq := false
+			for _, p := range f.Params {
+				if namedIs(p.Type(), repoPath(row.rel), row.reqType) {
+					takesReq = true
+				}
+			}
+			if !takesReq {
+				continue
+			}
+			// options objects created here: composite literals and results of constructors
+			var objs []ssa.Value
+			for _, b := range f.Blocks {
+				for _, in := range b.Instrs {
+					switch v := in.(type) {
+					case *ssa.Alloc:
+						if namedIs(v.Type(), repoPath(row.rel), row.optType) {
+							objs = append(objs, v)
+						}
+					case *ssa.Call:
+						if namedIs(v.Type(), repoPath(row.rel), row.optType) {
+							if _, isPtr := v.Type().(*types.Pointer); isPtr {
+								objs = append(objs, v)
+							}
+						}
+					}
+				}
+			}
+			for _, o := range objs {
+				// uses as call arguments
+				var uses []*ssa.Call
+				for _, r := range nonDebugRefs(o) {
+					if call, ok := r.(*ssa.Call); ok {
+						for _, a := range call.Call.Args {
+							if a == o {
+								uses = append(uses, call)
+							}
+						}
+					}
+				}
+				if len(uses) == 0 {
+					continue
+				}
+				nOpts++
+				okAll := true
+				for _, u := range uses {
+					okU := false
+					for _, r := range nonDebugRefs(o) {
+						fa, ok := r.(*ssa.FieldAddr)
+						if !ok || flow.FieldName(fa) != row.field {
+							continue
+						}
+						for _, r2 := range nonDebugRefs(fa) {
+							st, ok := r2.(*ssa.Store)
+							if !ok || st.Addr != fa {
+								continue
+							}
+							before := st.Block().Dominates(u.Block()) && (st.Block() != u.Block() || indexIn(st.Block(), st) < indexIn(u.Block(), u))
+							if before && sl.Derives(st.Val, func(v ssa.Value) bool {
+								return flow.IsFieldLoad(v, repoPath(row.rel), row.reqType, row.reqField)
+							}) {
+								okU = true
+							}
+						}
+					}
+					if !okU {
+						okAll = false
+					}
+				}
+				c.S.Check(okAll, "R7", load.FuncName(f)+":"+row.optType+"."+row.field, c.pos(o.Pos()), "every measurement options object built from the request gets "+row.field+" from the request before it is used", "a measurement options object is used without "+row.field+" having been set from the request: the signed value describes another configuration than the one requested")
+			}
+		}
+	}
+	c.S.Floor("R7", "measurement options objects built from a request", 1, nOpts)
+
+	// ---- R8: no configuration carried from one loop iteration into the next ----
+	prims := map[*ssa.Function]bool{}
+	for _, n := range []struct{ rel, name string }{{"sev", "LaunchDigest"}, {"tdx", "MRTD"}} {
+		if pf := c.P.Func(n.rel, n.name); pf != nil {
+			prims[pf] = true
+		}
+	}
+	nLoopCalls := 0
+	for _, f := range fns {
+		loops := naturalLoops(f)
+		if len(loops) == 0 {
+			continue
+		}
+		for _, call := range callsIn(f, func(call ssa.CallInstruction) bool {
+			cal := call.Common().StaticCallee()
+			if cal == nil || !S[cal] {
+				return false
+			}
+			if prims[cal] {
+				return true
+			}
+			// any repo function taking an options struct pointer of package sev/tdx
+			for _, a := range call.Common().Args {
+				if namedIs(a.Type(), repoPath("sev"), "LaunchOptions") || namedIs(a.Type(), repoPath("tdx"), "LaunchOptions") {
+					return true
+				}
+			}
+			return false
+		}) {
+			L := innermostLoopOf(loops, call.Block())
+			if L == nil {
+				continue
+			}
+			for _, a := range call.Common().Args {
+				if !(namedIs(a.Type(), repoPath("sev"), "LaunchOptions") || namedIs(a.Type(), repoPath("tdx"), "LaunchOptions")) {
+					continue
+				}
+				nLoopCalls++
+				def, ok := a.(ssa.Instruction)
+				if ok && L.Body[def.Block()] {
+					c.S.OK("R8", load.FuncName(f)+"→"+callName(call)+":options per iteration", c.pos(call.Pos()), "options object is created inside the iteration", true)
+					continue
+				}
+				// created outside the loop: every field stored inside the loop must be stored before this call on all paths of the iteration
+				stale := ""
+				for lb := range L.Body {
+					for _, li := range lb.Instrs {
+						st, ok := li.(*ssa.Store)
+						if !ok {
+							continue
+						}
+						fa, ok := st.Addr.(*ssa.FieldAddr)
+						if !ok || fa.X != a {
+							continue
+						}
+						// is there a store to this field dominating the call within the loop body?
+						dom := false
+						for lb2 := range L.Body {
+							for _, li2 := range lb2.Instrs {
+								st2, ok := li2.(*ssa.Store)
+								if !ok {
+									continue
+								}
+								fa2, ok := st2.Addr.(*ssa.FieldAddr)
+								if ok && fa2.X == a && fa2.Field == fa.Field && lb2 != L.Header && lb2.Dominates(call.Block()) && (lb2 != call.Block() || indexIn(lb2, st2) < indexIn(lb2, call.(ssa.Instruction))) {
+									dom = true
+								}
+							}
+						}
+						if !dom {
+							stale = flow.FieldName(fa)
+						}
+					}
+				}
+				c.S.Check(stale == "", "R8", load.FuncName(f)+"→"+callName(call)+":options per iteration", c.pos(call.Pos()), "fields changed in the loop are re-assigned before each use", "options field "+stale+" is changed inside the loop but not re-assigned before this measurement in the next iteration: a later entry is measured with a setting left over from an earlier one")
+			}
+		}
+	}
+	c.S.Floor("R8", "measurement calls inside loops", 2, nLoopCalls)
 
 	// ---- R6 ----
 	var marshals []*ssa.Call
